@@ -139,6 +139,14 @@ mod raw {
                     break;
                 }
 
+                if let Some(deadline) = deadline {
+                    // Check the deadline on every iteration: a child that keeps
+                    // the pipes ready would otherwise never let poll() time out.
+                    if Instant::now() >= deadline {
+                        return Err(io::Error::new(io::ErrorKind::TimedOut, "timeout"));
+                    }
+                }
+
                 let (in_ready, out_ready, err_ready) =
                     maybe_poll(self.stdin.as_ref(), stdout_ref, stderr_ref, deadline)?;
                 if !in_ready && !out_ready && !err_ready {
